@@ -57,3 +57,13 @@ def mk(xp, values, dtype):
 def mpf_list(vals):
     import mpmath as mp
     return [mp.mpf(v) if math.isfinite(v) else (mp.inf if v > 0 else -mp.inf) for v in vals]
+
+
+def NS_OF(samples):
+    """Name of the namespace a sample set's arrays live in."""
+    t = type(samples.x).__module__
+    if t.startswith("torch"):
+        return "torch"
+    if t.startswith("jax") or "jaxlib" in t:
+        return "jax"
+    return "numpy"
